@@ -90,13 +90,13 @@ class VArr(_np.ndarray):
 
 
 def _has_sym(a):
-    if isinstance(a, (Sym, SymBool)):
+    if isinstance(a, (Sym, SymBool)) or hasattr(a, '_pyvc_jet'):
         return True
     if isinstance(a, _np.ndarray):
         if a.dtype != object:
             return False
         for x in a.flat:
-            if isinstance(x, (Sym, SymBool)):
+            if isinstance(x, (Sym, SymBool)) or hasattr(x, '_pyvc_jet'):
                 return True
         return False
     if isinstance(a, (list, tuple)):
@@ -253,12 +253,21 @@ def linspace(start, stop, num=50, endpoint=True, **k):
 
 
 # ---- element-wise mathematics -------------------------------------------------------------
+def _jet_call(x, name):
+    if name in ('abs', 'absolute'):
+        return x.__abs__()
+    return getattr(x, name)()
+
+
 def _elementwise(fsym, fnum, name):
-    uf = _np.frompyfunc(lambda x: fsym(x) if isinstance(x, Sym) else _pynum(fnum, x), 1, 1)
+    uf = _np.frompyfunc(lambda x: fsym(x) if isinstance(x, Sym) else (_jet_call(x, name) if hasattr(x, '_pyvc_jet')
+                                                                      else _pynum(fnum, x)), 1, 1)
 
     def f(x, *a, **k):
         if isinstance(x, Sym):
             return fsym(x)
+        if hasattr(x, '_pyvc_jet'):
+            return _jet_call(x, name)
         if isinstance(x, _np.ndarray):
             if x.dtype == object:
                 r = uf(x)
@@ -494,7 +503,7 @@ def interp(x, xp, fp, **k):
     fp_ = _np.asarray(unwrap(fp), dtype=float)
 
     def one(v):
-        if not isinstance(v, Sym):
+        if not isinstance(v, Sym) and not hasattr(v, '_pyvc_jet'):
             return float(_np.interp(v, xp_, fp_))
         # piece-wise linear definition; clamps outside the table
         if S._truth(v <= xp_[0]):
@@ -650,7 +659,7 @@ FLOAT_OF_SIZE1_ARRAY_RAISES = [True]
 
 
 def s_isinstance(obj, cls):
-    if type(obj) is Sym:
+    if type(obj) is Sym or hasattr(obj, '_pyvc_jet'):
         classes = cls if builtins.isinstance(cls, tuple) else (cls,)
         for c in classes:
             if c in (float, numbers.Number, numbers.Real, _np.floating, _np.number, Sym, object):
